@@ -241,6 +241,21 @@ def run_plz(bindir, cwd, args, seed, home, trace_path, policy="", choices=None, 
         run["multi_offsets"] = multi_offsets or []
     if extra_run:
         run.update(extra_run)
+    # A recorded choice list may no longer fit the code; the run is then repeated from the recorded seed.
+    # The diverged attempt must leave nothing behind, so the state it can touch (the repository with its
+    # plz-out, and the action log and cache directory beside it) is saved first and put back before the repeat.
+    snap = None
+    if choices:
+        snap = trace_path + ".snap"
+        shutil.rmtree(snap, ignore_errors=True)
+        os.makedirs(snap)
+        parent = os.path.dirname(cwd.rstrip("/"))
+        for item in (os.path.basename(cwd.rstrip("/")), "log", "cache"):
+            src = os.path.join(parent, item)
+            if os.path.isdir(src):
+                shutil.copytree(src, os.path.join(snap, item), symlinks=True)
+            elif os.path.exists(src):
+                shutil.copy2(src, os.path.join(snap, item))
     runfile = trace_path + ".run.json"
     with open(runfile, "w") as f:
         json.dump(run, f)
@@ -300,9 +315,25 @@ def run_plz(bindir, cwd, args, seed, home, trace_path, policy="", choices=None, 
         # The recorded choice list no longer fits the code (it changed since the file was written):
         # fall back to the recorded seed and policy, which is still one exactly repeatable execution.
         print("note: recorded schedule diverged (%s); re-running from the recorded seed" % r.sim_fail, file=sys.stderr)
+        if snap:
+            parent = os.path.dirname(cwd.rstrip("/"))
+            for item in (os.path.basename(cwd.rstrip("/")), "log", "cache"):
+                cur = os.path.join(parent, item)
+                subprocess.run(["chmod", "-R", "u+rwx", cur], stderr=subprocess.DEVNULL)
+                if os.path.isdir(cur) and not os.path.islink(cur):
+                    shutil.rmtree(cur, ignore_errors=True)
+                elif os.path.lexists(cur):
+                    os.remove(cur)
+                saved = os.path.join(snap, item)
+                if os.path.isdir(saved):
+                    shutil.copytree(saved, cur, symlinks=True)
+                elif os.path.exists(saved):
+                    shutil.copy2(saved, cur)
         return run_plz(bindir, cwd, args, seed, home, trace_path, policy=policy, choices=None, stalls=stalls, num_stalls=num_stalls,
                        horizon=horizon, faults=faults, env_extra=env_extra, timeout=timeout, max_steps=max_steps, extra_yields=extra_yields,
                        gomaxprocs=gomaxprocs, multi=multi, multi_offsets=multi_offsets, binary=binary, test_name=test_name, extra_run=extra_run)
+    if snap:
+        shutil.rmtree(snap, ignore_errors=True)
     if r.exit == EXIT_INTERNAL:
         raise Infra("simulator internal error in %s: %s" % (cwd, r.stderr[-2000:]))
     return r
